@@ -322,3 +322,28 @@ Definition dims3 {A} (x : list (list (list A))) : Z * Z * Z :=
 Definition torch_to_numpy {A} (detect : Z -> Z -> Z -> bool) (x : list (list (list A))) : list (list (list A)) :=
   let '(s0, s1, s2) := dims3 x in
   if detect s0 s1 s2 then chw_to_hwc (Z.to_nat s1) (Z.to_nat s2) x else x.
+
+(* ====================================================================================== *)
+(* 8. load_image(fn, normalizeby, torch_style): what torch_style does for each rank          *)
+(* ====================================================================================== *)
+(* `if torch_style == True and len(image.shape) > 2: image = np.moveaxis(image, -1, 0)`:
+   an array with two axes (a monochrome file) is returned as it is, (H, W); an array with three
+   axes (H, W, C) becomes (C, H, W).  `Color` is used for any array with three axes. *)
+Definition channel_count {A} (m : list (list (list A))) : nat := length (hd [] (hd [] m)).
+Definition torch_style_view {A} (torch_style : bool) (i : image A) : image A :=
+  match i with
+  | Gray m => Gray m
+  | Color m => if torch_style then Color (hwc_to_chw (channel_count m) m) else Color m
+  end.
+(* the whole loader: channel swap, `astype(float)` / `image * 1. / normalizeby` (a map g on the values,
+   which leaves the shape alone), then the axis move *)
+Definition load_view {A B} (g : B -> A) (torch_style : bool) (i : image B) : image A :=
+  torch_style_view torch_style (image_map g (load_px i)).
+Definition load_image_full {A B F} (g : B -> A) (imread : F -> option (image B)) (torch_style : bool) (f : F) : option (image A) :=
+  option_map (load_view g torch_style) (imread f).
+(* shape of what comes back: (H, W) | (H, W, C) | (C, H, W) *)
+Definition image_shape {A} (i : image A) : list nat :=
+  match i with
+  | Gray m => [length m; length (hd [] m)]
+  | Color m => [length m; length (hd [] m); length (hd [] (hd [] m))]
+  end.
